@@ -93,6 +93,12 @@ CHECKS.update({
    note="object tree read through its serialized form; the reference list of saved steps encodes walk()'s initial save"),
 })
 
+CHECKS.update({
+ "C20": dict(level="model_checking", ref="3 C20", technique="explicit-state search (BFS with deduplication on the serialized object) over setter sequences on FuelConverter / Generator / ReversibleEnergyStorage / Locomotive (conv, BEL, dummy) from every known/unknown initial file; reference model of each documented side-effect option; roll-up checks for Consist and TrainSimBuilder",
+   text="All setter sequences up to the stated depth are applied to the real objects from every combination of known/unknown mass data (loaded through the real from_json/init, incl. redundant inconsistent files); states are deduplicated on the serialized object (a true reachable-state search: states, transitions and max depth are reported). After every transition: accepted updates keep the getters answering and consistent, the stored fields equal what the chosen side-effect option documents, a rejected update leaves the object byte-identical; consist mass/force and train static mass/weight equal their sums.",
+   note="depth-bounded; two mass values, two adhesion values, two force values (one consistent with (mu1, m1)); the dummy locomotive's derived mass of exactly 0 kg is treated as degenerate for mu = f/(m g)"),
+})
+
 def main():
     checks = []
     for pid in sorted(CHECKS):
